@@ -210,6 +210,26 @@ def run_parallel(run, exe, lines):
     return out, crashes
 
 
+def run_model_parallel(run, engine, lines):
+    """The extracted model on `lines`, sharded over WORKERS processes (order kept)."""
+    n = len(lines)
+    if n < 200:
+        return core.run_model(engine, run.casefile("%s-cases.txt" % engine, lines))
+    nshard = WORKERS
+    out = [None] * n
+
+    def work(k):
+        idx = list(range(k, n, nshard))
+        cf = run.casefile("%s-cases-%d.txt" % (engine, k), [lines[i] for i in idx])
+        return idx, core.run_model(engine, cf)
+
+    with concurrent.futures.ThreadPoolExecutor(max_workers=nshard) as ex:
+        for idx, res in ex.map(work, range(nshard)):
+            for j, i in enumerate(idx):
+                out[i] = res[j] if j < len(res) else "MODEL-NOT-RUN"
+    return out
+
+
 def check(run):
     run.trusted += [
         "C03 is partial by nature: the theorems are about the parsing logic of the models; memory safety, "
@@ -221,12 +241,19 @@ def check(run):
         "load does not hide what follows; they are still reported as failures",
     ]
     run.assumptions += ["inputs are regular files that do not change while open (fcache takes st_size once)"]
+    import time
+    t0 = time.time()
     run.check_coq()
+    run.cov["phase_s"] = {"coq": round(time.time() - t0, 1)}
+    t0 = time.time()
     if not run.need_ml():
         return
+    run.cov["phase_s"]["ml"] = round(time.time() - t0, 1)
+    t0 = time.time()
     exe = run.need_cc("corrupt_drv", "corrupt_drv.c", sources=core.lib_sources(), flags=CC_FLAGS)
     if exe is None:
         return
+    run.cov["phase_s"]["cc"] = round(time.time() - t0, 1)
     quick = run.tier == "quick"
     seeds = F.build_seeds(os.path.join(run.work, "seeds"))
     byname = {s.name: s for s in seeds}
@@ -268,9 +295,16 @@ def check(run):
     run.cov["engines"]["corrupt"] = {"corpus_cases": len(pre), "rle_cases": len(rle), "file_cases": len(cases),
                                      "seeds": [s.name for s in seeds],
                                      "fields_mapped": sum(len(s.fields) for s in seeds)}
-    model = core.run_model("corrupt", run.casefile("corrupt-cases.txt", lines))
-    impl, crashes = run_parallel(run, exe, lines)
+    t0 = time.time()
+    with concurrent.futures.ThreadPoolExecutor(max_workers=2) as ex:
+        fm = ex.submit(run_model_parallel, run, "corrupt", lines)
+        fi = ex.submit(run_parallel, run, exe, lines)
+        model = fm.result()
+        impl, crashes = fi.result()
+    run.cov["phase_s"]["campaign"] = round(time.time() - t0, 1)
+    t0 = time.time()
     judge(run, lines, whats, model, impl)
+    run.cov["phase_s"]["judge"] = round(time.time() - t0, 1)
 
 
 def judge(run, lines, whats, model, impl):
@@ -343,16 +377,34 @@ def judge(run, lines, whats, model, impl):
 
 
 def compare_prediction(pred, impl):
-    """pred: 'P <k>=<v> ...' tokens every one of which must appear in the implementation line
-    (or 'P !<tok>' that must not).  Returns a short description of the difference or None."""
-    toks = set(impl.split())
-    for p in pred.split()[1:]:
+    """pred: 'P tok ...'.  tok forms: 'k=v' must be a token of the implementation line;
+    'k=v*' some token must start with it; '!pfx' no token may start with pfx;
+    '?cond:tok' tok (any form) only applies if the token cond is present;
+    'MODEL-...' the model itself reached an outcome the theorems exclude.
+    Returns a short description of the difference or None."""
+    toks = impl.split()
+    tset = set(toks)
+
+    def one(p):
+        if p.startswith("MODEL-"):
+            return "model outcome " + p
+        if p.startswith("?"):
+            cond, _, rest = p[1:].partition(":")
+            return one(rest) if cond in tset else None
         if p.startswith("!"):
             if any(t.startswith(p[1:]) for t in toks):
-                return "unexpected " + p[1:]
-        elif p.endswith("*"):
+                return "unexpected " + p[1:40]
+            return None
+        if p.endswith("*"):
             if not any(t.startswith(p[:-1]) for t in toks):
-                return "missing " + p
-        elif p not in toks:
+                return "missing " + p.split("=")[0] + "=..."
+            return None
+        if p not in tset:
             return "missing " + p.split("=")[0]
+        return None
+
+    for p in pred.split()[1:]:
+        d = one(p)
+        if d:
+            return d
     return None
